@@ -31,8 +31,9 @@ int main()
           float value = 0;
           for (auto iter = segment.begin_all(); iter != segment.end_all(); ++iter)
             {
-              value = float(fabs((seg + .1 + 0.37 * k) * value - 5));
-              *iter = value;
+              // bounded positive pseudo-random counts that differ between segments and TOF bins
+              value = float(std::fmod(value * 1.7 + 0.31 + 0.05 * seg + 0.013 * k, 1.));
+              *iter = 1 + 9 * value + (k + 2);
             }
           proj_data_sptr->set_segment(segment);
         }
